@@ -203,6 +203,26 @@ def ejson_agreement(ctx):
             run.check(ok2 and all('utcoffset()' in u(e) for a, e in offs if a), 'R16', where(repo, payload), d.qualname,
                       'offset seconds <-> timedelta(seconds=offset); tzname()',
                       'the three datetime components are not read back in the roles they were written in')
+            # the zone name is handed to timezone(offset, name) only where it is known to be a name: timezone(offset, None) raises
+            # TypeError (not the ValueError the decoder tolerates), and the encoder writes None for zones without a name
+            hb = ctx.N(h)
+            for c_ in ast.walk(hb.node):
+                if isinstance(c_, ast.Call) and u(c_.func).endswith('timezone') and len(c_.args) == 2 and pseudo(c_.args[1]) == tzn:
+                    tests = []
+                    cur = c_
+                    while getattr(cur, '_parent', None) is not None and cur is not hb.node:
+                        par = cur._parent
+                        if isinstance(par, (ast.If, ast.IfExp)):
+                            inb = (cur is par.body) if isinstance(par, ast.IfExp) else any(cur is x for x in par.body)
+                            ino = (cur is par.orelse) if isinstance(par, ast.IfExp) else any(cur is x for x in par.orelse)
+                            if inb or ino:
+                                t_, pol_ = norm_compare(par.test, inb)
+                                tests.append((u(t_), pol_))
+                        cur = par
+                    run.check(('%s is None' % tzn, False) in tests, 'R16', where(repo, c_), h.qualname,
+                              'timezone(offset, name) only where the name is not None',
+                              'the zone name reaches timezone(offset, name) where it may be None: a zone-aware value of an unnamed zone '
+                              'makes the reader raise TypeError, and a named zone loses its name')
             # naive datetimes: None offset written iff utcoffset() is None; decoder keys on tzname None
             naive = [e for a, e in offs if a is False]
             run.check(bool(naive) and all(isinstance(e, ast.Constant) and e.value is None for e in naive) and
